@@ -272,4 +272,32 @@ def qd_wake_blocked(ctx):
             out.append(bad(R, '%s|wake_blocked.assign' % short(fn.root or fn.name), 'the list of blocked sync callers is replaced wholesale', loc=fn.loc(bb, i), fn=fn.name))
     if counts['push'] < 1 or counts['retain'] < 2:
         out.append(undecided(R, 'floor', 'expected 1 push and 2 retain sites, found %d/%d' % (counts['push'], counts['retain'])))
+    # reschedule_queue tells every blocked sync caller, on every path: a waiter has no other way to learn that it may claim the queue
+    # (a pool thread that was asked to look at the schedule can be taken by another queue)
+    rq = F.fn('desync::SchedulerCore::reschedule_queue')
+    key = 'reschedule_queue|notifies-waiters-always'
+    if not rq:
+        out.append(undecided(R, key, 'anchor not found'))
+    else:
+        u = FieldUse(rq, JQC)
+        touches = [bb for (bb, m, t) in u.calls.get('wake_blocked', []) if m != 'retain']
+        NOTIFY = ('Condvar::notify_one', 'Condvar::notify_all')
+        notif = [bb for bb, t in rq.calls() if (t['func'].get('fn') or '').endswith(NOTIFY)]
+        walks = list(notif)
+        for bb, t in rq.calls():
+            for a in t['args']:
+                if a['k'] != 'const' and clean_ty(a['pl']['ty']).startswith('{closure:'):
+                    cf = F.fn(clean_ty(a['pl']['ty'])[9:-1])
+                    if cf and any((tt['func'].get('fn') or '').endswith(NOTIFY) for _, tt in cf.calls()):
+                        walks.append(bb)
+                        notif.append(bb)
+        if not touches:
+            walks = []
+        if not walks or not notif:
+            out.append(bad(R, key, 'reschedule_queue no longer walks wake_blocked and notifies the blocked sync callers', fn=rq.name))
+        elif rq.must_pass(0, set(rq.exits()), set(walks)):
+            out.append(ok(R, key, 'every path through reschedule_queue walks wake_blocked and notifies each live waiter', fn=rq.name))
+        else:
+            out.append(bad(R, key, 'some path through reschedule_queue returns without notifying the blocked sync callers: a waiter whose queue became claimable '
+                           'is only served if a pool thread happens to pick exactly this queue', fn=rq.name))
     return out
